@@ -178,7 +178,7 @@ func (c *Ctx) ruleM1(rule string, fns []*ssa.Function) {
 				// exempt: return guarded by rb == nil
 				exempt := false
 				for _, g := range m.x.GuardsOf(t.Block()) {
-					if s, neq, ok := nilCheck(g.Cond); ok && !neq && g.Pol {
+					if s, neq, ok := nilCheck(g.Cond); ok && neq != g.Pol {
 						if p, ok := m.x.Origin(s).(*ssa.Parameter); ok && isNamedPtr(p.Type(), pBuilder, "RuleBuilder") {
 							exempt = true
 						}
@@ -203,6 +203,7 @@ func (c *Ctx) ruleM2(rule string, fns []*ssa.Function) {
 	for _, fn := range fns {
 		m := c.engModel(fn)
 		matched := map[ssa.Instruction]bool{}
+		c.Check(rule, fnName(fn)+"#runs-rules", len(m.execs) > 0, fn.Pos(), "an execute method must contain at least one rule execution")
 		for _, e := range m.execs {
 			ok, why := m.pairing(e, matched)
 			c.Check(rule, e.key(), ok, e.call.Pos(), "%s", why)
@@ -452,7 +453,20 @@ func (c *Ctx) ruleA3(rule string, fn *ssa.Function) []*seqLoop {
 			pass("ranged", "executes the element of %s", x.Describe(sl.ranged))
 		}
 		// every element is executed: the call is not under a further condition inside the loop
-		if gs := x.GuardsOfInLoop(e.call.Block()); len(gs) > 0 {
+		// (a test whose other edge leaves the loop is one of the loop's exits and is judged there)
+		var gs []Guard
+		for _, g := range x.GuardsOfInLoop(e.call.Block()) {
+			leaves := false
+			for _, sc := range g.If.Block().Succs {
+				if !L.Blocks[sc] {
+					leaves = true
+				}
+			}
+			if !leaves {
+				gs = append(gs, g)
+			}
+		}
+		if len(gs) > 0 {
 			fail("every-element", e.call.Pos(), "the rule execution is conditional inside the loop (%s): some rules of the list would be skipped", x.describeGuards(gs))
 		} else {
 			pass("every-element", "executed unconditionally for every element")
@@ -520,11 +534,11 @@ func (c *Ctx) ruleA3(rule string, fn *ssa.Function) []*seqLoop {
 						}
 						continue
 					}
-					if base, ok := x.isFieldLoad(g.Cond, "Stag", "StopTag"); ok && sPar != nil && x.Origin(base) == ssa.Value(sPar) {
+					if sPar != nil && x.tagRead(g.Cond, sPar) != nil {
+						// "the tag is not set" holds for the whole body when the tag is part of
+						// the loop condition; as a guard of another exit it says nothing
 						if g.Pol {
 							tagTrue = true
-						} else {
-							other = "exit under StopTag == false"
 						}
 						continue
 					}
@@ -552,10 +566,8 @@ func (c *Ctx) ruleA3(rule string, fn *ssa.Function) []*seqLoop {
 					// the tag must be read after this iteration's rule ran, and lead to the normal exit
 					var ld ssa.Instruction
 					for _, g := range gs {
-						if _, ok := x.isFieldLoad(g.Cond, "Stag", "StopTag"); ok {
-							if u, ok := x.Origin(g.Cond).(*ssa.UnOp); ok {
-								ld = u
-							}
+						if u := x.tagRead(g.Cond, sPar); u != nil {
+							ld = u
 						}
 					}
 					if ld == nil || !domInstr(e.call, ld) {
@@ -655,10 +667,13 @@ func (c *Ctx) ruleA3(rule string, fn *ssa.Function) []*seqLoop {
 				if !ok {
 					return false
 				}
-				base, ok := x.isFieldLoad(iff.Cond, "Stag", "StopTag")
-				return ok && x.Origin(base) == ssa.Value(sPar)
+				return x.tagRead(iff.Cond, sPar) != nil
 			}
-			if _, found := pathExists(fn, e.call, func(in ssa.Instruction) bool { return in == headStart }, isTagIf); found {
+			// from the rule execution, the tag is read and tested before the next rule can
+			// start (the test may be part of the loop condition)
+			nextRule := func(in ssa.Instruction) bool { return in == ssa.Instruction(e.call) }
+			_ = headStart
+			if _, found := pathExists(fn, e.call, nextRule, isTagIf); found {
 				fail("tag-checked", e.call.Pos(), "a path from the rule execution to the next iteration does not read the stop tag")
 			} else if !sl.hasTag {
 				fail("tag-checked", e.call.Pos(), "the stop tag is read but a true tag does not leave the loop")
@@ -668,6 +683,42 @@ func (c *Ctx) ruleA3(rule string, fn *ssa.Function) []*seqLoop {
 		}
 	}
 	return loops
+}
+
+// tagRead: v is the stop tag of sPar as read at some point: sPar.StopTag
+// itself, or a local bool every value of which is that read or the constant
+// false it was initialised with (`stopped := false; ...; stopped = sTag.StopTag`).
+// Returns the read.
+func (x *FnIndex) tagRead(v ssa.Value, sp *ssa.Parameter) *ssa.UnOp {
+	var sPar ssa.Value = sp
+	if sp == nil {
+		return nil
+	}
+	isTag := func(w ssa.Value) *ssa.UnOp {
+		if base, ok := x.isFieldLoad(w, "Stag", "StopTag"); ok && x.Origin(base) == sPar {
+			u, _ := x.Origin(w).(*ssa.UnOp)
+			return u
+		}
+		return nil
+	}
+	if u := isTag(v); u != nil {
+		return u
+	}
+	var rd *ssa.UnOp
+	for _, pv := range x.PossibleValues(v) {
+		if pv.V == nil || pv.Outside {
+			return nil
+		}
+		if b, isC := constBool(pv.V); isC && !b {
+			continue
+		}
+		u := isTag(pv.V)
+		if u == nil {
+			return nil
+		}
+		rd = u
+	}
+	return rd
 }
 
 // storeReaches: some append to the error list happens inside the loop.
@@ -930,26 +981,28 @@ func (c *Ctx) orderSource(fn *ssa.Function, ranged ssa.Value, before ssa.Instruc
 		}
 		return false
 	}
-	// tests `len(cell) >= 2` whose true edge leads to the sort
+	// tests of len(cell) against 2 (`>= 2`, `> 1`, `< 2` ..., written either way
+	// round): the edge on which len >= 2 leads to the sort, on the other len <= 1
 	isLenTest := func(in ssa.Instruction) bool {
 		iff, ok := in.(*ssa.If)
 		if !ok {
 			return false
 		}
-		bo, ok := iff.Cond.(*ssa.BinOp)
-		if !ok {
+		la, tlo, thi, flo, fhi, isLen := x.lenTest(iff.Cond)
+		if !isLen || x.Cell(la) != cell {
 			return false
 		}
-		la, isLen := builtinCall(bo.X, "len")
-		k, isK := constInt(bo.Y)
-		if !isLen || !isK || x.Cell(la[0]) != cell {
-			return false
-		}
-		if !((bo.Op == token.GEQ && k == 2) || (bo.Op == token.GTR && k == 1)) {
+		long := -1
+		switch {
+		case tlo >= 2 && fhi <= 1:
+			long = 0
+		case flo >= 2 && thi <= 1:
+			long = 1
+		default:
 			return false
 		}
 		for _, s := range sorts {
-			if x.edgeDominated(iff.Block(), 0)[s.Block()] {
+			if x.edgeDominated(iff.Block(), long)[s.Block()] {
 				return true
 			}
 		}
@@ -994,7 +1047,20 @@ func stagesOf(loops []*seqLoop, fos []*fanout) []*stage {
 			out = append(out, &stage{kind: "fan", ranged: fo.ranged, loop: fo.loop, pos: fo.goStmt.Pos(), fo: fo})
 		}
 	}
-	sort.Slice(out, func(i, j int) bool { return out[i].pos < out[j].pos })
+	// in execution order: a stage comes first when its loop dominates the other's
+	// (source positions say nothing once a stage lives in a shared helper)
+	sort.SliceStable(out, func(i, j int) bool {
+		a, b := out[i], out[j]
+		if a.loop != nil && b.loop != nil && a.loop != b.loop {
+			if a.loop.Head.Dominates(b.loop.Head) {
+				return true
+			}
+			if b.loop.Head.Dominates(a.loop.Head) {
+				return false
+			}
+		}
+		return a.pos < b.pos
+	})
 	return out
 }
 
@@ -1063,33 +1129,16 @@ func (c *Ctx) ruleWindows(rule string, fn *ssa.Function, stages []*stage, select
 		return false
 	}
 	posParam := func(p *ssa.Parameter) bool {
-		return has(func(g Guard) bool {
-			bo, ok := g.Cond.(*ssa.BinOp)
-			if !ok || x.Origin(bo.X) != ssa.Value(p) {
-				return false
-			}
-			k, isK := constInt(bo.Y)
-			if !isK {
-				return false
-			}
-			// p <= 0 false, p < 1 false, p > 0 true, p >= 1 true
-			return (bo.Op == token.LEQ && k == 0 && !g.Pol) || (bo.Op == token.LSS && k == 1 && !g.Pol) ||
-				(bo.Op == token.GTR && k == 0 && g.Pol) || (bo.Op == token.GEQ && k == 1 && g.Pol)
-		})
+		// p >= 1, i.e. 1 - p <= 0, however it is written
+		w := constForm(1).add(atomForm(p.Name()), -1)
+		return has(func(g Guard) bool { return x.guardGivesLE(g, w) })
 	}
 	c.Check(rule, key+"#n-positive", posParam(ip[0]), fn.Pos(), "the first stage size must be checked > 0 before anything runs")
 	c.Check(rule, key+"#m-positive", posParam(ip[1]), fn.Pos(), "the second stage size must be checked > 0 before anything runs")
 	sum := n.add(mm, 1)
 	if !selected {
-		fits := has(func(g Guard) bool {
-			bo, ok := g.Cond.(*ssa.BinOp)
-			if !ok {
-				return false
-			}
-			l, r := x.symInt(bo.X), x.symInt(bo.Y)
-			lenB := x.symLen(b1)
-			return (bo.Op == token.GTR && !g.Pol && l.equal(sum) && r.equal(lenB)) || (bo.Op == token.LEQ && g.Pol && l.equal(sum) && r.equal(lenB))
-		})
+		lenB := x.symLen(b1)
+		fits := has(func(g Guard) bool { return x.guardGivesLE(g, sum.add(lenB, -1)) })
 		c.Check(rule, key+"#fits", fits, fn.Pos(), "n+m <= len(%s) must be checked before anything runs", x.Describe(b1))
 	} else {
 		var names *ssa.Parameter
@@ -1100,16 +1149,13 @@ func (c *Ctx) ruleWindows(rule string, fn *ssa.Function, stages []*stage, select
 				}
 			}
 		}
-		eq := names != nil && has(func(g Guard) bool {
-			bo, ok := g.Cond.(*ssa.BinOp)
-			if !ok {
-				return false
-			}
-			l, r := x.symInt(bo.X), x.symInt(bo.Y)
+		eq := false
+		if names != nil {
 			ln := atomForm("len(" + names.Name() + ")")
-			match := (l.equal(sum) && r.equal(ln)) || (r.equal(sum) && l.equal(ln))
-			return match && ((bo.Op == token.NEQ && !g.Pol) || (bo.Op == token.EQL && g.Pol))
-		})
+			le := has(func(g Guard) bool { return x.guardGivesLE(g, sum.add(ln, -1)) })
+			ge := has(func(g Guard) bool { return x.guardGivesLE(g, ln.add(sum, -1)) })
+			eq = le && ge
+		}
 		c.Check(rule, key+"#names-count", eq, fn.Pos(), "n+m == len(names) must be checked before anything runs")
 	}
 }
@@ -1140,7 +1186,7 @@ func (c *Ctx) ruleStageGate(rule string, fn *ssa.Function, stages []*stage, E *s
 		if u, ok := iff.Cond.(*ssa.UnOp); ok && u.Op == token.NOT && x.Origin(u.X) == ssa.Value(bPar) {
 			forbidden[edgeKey{b, 1}] = true
 		}
-		if arg, nonEmpty, ok := lenCmp(iff.Cond); ok && x.Cell(arg) == E {
+		if arg, nonEmpty, ok := x.lenCmpO(iff.Cond); ok && x.Cell(arg) == E {
 			if nonEmpty {
 				forbidden[edgeKey{b, 1}] = true // list empty: continue allowed
 			} else {
@@ -1266,7 +1312,7 @@ func (c *Ctx) ruleSyncSingles(rule string, fn *ssa.Function, fos []*fanout, E *s
 			c.Check(rule, key+"/partition", okFan, e.call.Pos(), "rules[len-1] runs after the joined fan-out over exactly rules[0:len-1) of the same list")
 			empty := false
 			for _, g := range x.GuardsOf(e.call.Block()) {
-				if arg, nonEmpty, ok := lenCmp(g.Cond); ok && E != nil && x.Cell(arg) == E && nonEmpty != g.Pol {
+				if arg, nonEmpty, ok := x.lenCmpO(g.Cond); ok && E != nil && x.Cell(arg) == E && nonEmpty != g.Pol {
 					empty = true
 				}
 			}
@@ -1292,26 +1338,20 @@ type selection struct {
 	loops   []*Loop
 }
 
-// lenCmpO is lenCmp looking through local variables (length := len(rules)).
+// lenCmpO is lenCmp for every way of writing the test: through local
+// variables (length := len(rules)), with the constant on either side, with
+// any comparison operator and offsets (`len(r) < 1`, `0 == len(r)`,
+// `len(r)-1 >= 0`): the test must split exactly into "empty" and "non-empty".
 func (x *FnIndex) lenCmpO(cond ssa.Value) (ssa.Value, bool, bool) {
-	if a, ne, ok := lenCmp(cond); ok {
-		return a, ne, ok
-	}
-	b, ok := cond.(*ssa.BinOp)
+	arg, tlo, thi, flo, fhi, ok := x.lenTest(cond)
 	if !ok {
 		return nil, false, false
 	}
-	xo := x.Origin(b.X)
-	la, isLen := builtinCall(xo, "len")
-	k, isK := constInt(b.Y)
-	if !isLen || !isK {
-		return nil, false, false
-	}
 	switch {
-	case b.Op == token.GTR && k == 0, b.Op == token.GEQ && k == 1, b.Op == token.NEQ && k == 0:
-		return la[0], true, true
-	case b.Op == token.EQL && k == 0, b.Op == token.LSS && k == 1, b.Op == token.LEQ && k == 0:
-		return la[0], false, true
+	case tlo >= 1 && flo == 0 && fhi == 0:
+		return arg, true, true
+	case tlo == 0 && thi == 0 && flo >= 1:
+		return arg, false, true
 	}
 	return nil, false, false
 }
@@ -1323,27 +1363,39 @@ func (c *Ctx) ruleSelection(rule string, fn *ssa.Function, missPolicy string) *s
 	m := c.engModel(fn)
 	x := m.x
 	key := fnName(fn)
-	// the cell: a local []*RuleEntity that is appended to
+	// the cell: a local []*RuleEntity that is appended to, or a pre-sized one whose
+	// positions are assigned in a counted loop
 	var cell *ssa.Alloc
+	isRuleSliceCell := func(al *ssa.Alloc) bool {
+		sl, ok := al.Type().(*types.Pointer).Elem().Underlying().(*types.Slice)
+		return ok && structName(sl.Elem()) == "RuleEntity"
+	}
+	pick := func(al *ssa.Alloc, pos token.Pos) {
+		if cell == nil {
+			cell = al
+		} else if cell != al {
+			c.Check(rule, key+"#one-selection", false, pos, "two different rule slices are filled")
+		}
+	}
 	eachInstr(fn, func(in ssa.Instruction) {
 		st, ok := in.(*ssa.Store)
 		if !ok {
 			return
 		}
-		al, ok := x.ResolveAddr(st.Addr).(*ssa.Alloc)
-		if !ok {
+		if ia, isIA := st.Addr.(*ssa.IndexAddr); isIA {
+			if al := x.Cell(ia.X); al != nil && al.Parent() == fn && isRuleSliceCell(al) && x.InnermostLoop(st.Block()) != nil {
+				if _, isSl := ia.X.Type().Underlying().(*types.Slice); isSl {
+					pick(al, st.Pos())
+				}
+			}
 			return
 		}
-		sl, ok := al.Type().(*types.Pointer).Elem().Underlying().(*types.Slice)
-		if !ok || structName(sl.Elem()) != "RuleEntity" {
+		al, ok := x.ResolveAddr(st.Addr).(*ssa.Alloc)
+		if !ok || !isRuleSliceCell(al) {
 			return
 		}
 		if args, ok := builtinCall(st.Val, "append"); ok && x.Cell(args[0]) == al {
-			if cell == nil {
-				cell = al
-			} else if cell != al {
-				c.Check(rule, key+"#one-selection", false, st.Pos(), "two different rule slices are filled")
-			}
+			pick(al, st.Pos())
 		}
 	})
 	if cell == nil {
@@ -1352,23 +1404,63 @@ func (c *Ctx) ruleSelection(rule string, fn *ssa.Function, missPolicy string) *s
 	}
 	sel := &selection{cell: cell}
 	allOK := true
-	si := 0
+	// the places where a rule enters the selection
+	type fill struct {
+		st  *ssa.Store
+		hit ssa.Value
+	}
+	var fills []fill
+	var mk *ssa.MakeSlice
 	for _, st := range x.stores[cell] {
-		si++
-		skey := fmt.Sprintf("%s#select%d", key, si)
+		if ms, isMk := x.Origin(st.Val).(*ssa.MakeSlice); isMk && st.Parent() == fn {
+			mk = ms
+			continue
+		}
 		args, ok := builtinCall(st.Val, "append")
 		if !ok || x.Cell(args[0]) != cell || st.Parent() != fn {
-			c.Check(rule, skey, false, st.Pos(), "the selected-rule slice is assigned something other than append(itself, hit)")
+			c.Check(rule, fmt.Sprintf("%s#select-assign@%s", key, x.Describe(st.Val)), false, st.Pos(), "the selected-rule slice is assigned something other than append(itself, hit)")
 			allOK = false
 			continue
 		}
 		// the appended element: varargs slice of a one-element array holding the hit
 		hit := x.appendedSingle(args[1])
 		if hit == nil {
-			c.Check(rule, skey, false, st.Pos(), "cannot identify the appended element")
+			c.Check(rule, fmt.Sprintf("%s#select-assign@%s", key, x.Describe(st.Val)), false, st.Pos(), "cannot identify the appended element")
 			allOK = false
 			continue
 		}
+		fills = append(fills, fill{st, hit})
+	}
+	eachInstr(fn, func(in ssa.Instruction) {
+		st, ok := in.(*ssa.Store)
+		if !ok {
+			return
+		}
+		ia, isIA := st.Addr.(*ssa.IndexAddr)
+		if !isIA || x.Cell(ia.X) != cell {
+			return
+		}
+		// rules[i] = hit: position i of a slice made with one position per name, i counting
+		// the names from 0; only where an unknown name ends the call (no position stays empty)
+		okPos := false
+		if ctr := x.directCell(x.lastLoad(ia.Index)); ctr != nil && mk != nil && missPolicy == "fail" {
+			if cl := x.countedLoop(ctr); cl != nil && cl.start == 0 && cl.boundAdd == 0 && cl.loop.Blocks[st.Block()] && x.symInt(cl.bound).equal(x.symInt(mk.Len)) {
+				okPos = true
+			}
+		}
+		if !okPos {
+			c.Check(rule, key+"#select-by-position", false, st.Pos(), "an element of the selected-rule slice is assigned other than as position i of a slice with one position per name, in the loop counting the names (and only where an unknown name is an error)")
+			allOK = false
+			return
+		}
+		fills = append(fills, fill{st, st.Val})
+	})
+	sort.Slice(fills, func(i, j int) bool { return fills[i].st.Pos() < fills[j].st.Pos() })
+	si := 0
+	for _, fl := range fills {
+		st, hit := fl.st, fl.hit
+		si++
+		skey := fmt.Sprintf("%s#select%d", key, si)
 		ex, ok := x.Origin(hit).(*ssa.Extract)
 		var lk *ssa.Lookup
 		if ok && ex.Index == 0 {
